@@ -173,10 +173,9 @@ CfQueue(pk) ==
                    inQ, needsRes, nSub, lossLeft, negLossLeft>>
 
 Radio == (\E o \in Outcomes : NegTx(o) \/ DataTx(o)) \/ InPut \/ OutGet
-Next == \/ Radio
-        \/ (nSub < NUp /\ AppSubmit(UpPk(nSub + 1)))
-        \/ AppRecv
-        \/ (nQ < NDown /\ CfQueue(DnPk(nQ + 1)))
+Submit == nSub < NUp /\ AppSubmit(UpPk(nSub + 1))
+Queue == nQ < NDown /\ CfQueue(DnPk(nQ + 1))
+Next == Radio \/ Submit \/ AppRecv \/ Queue
 
 Spec == Init /\ [][Next]_vars
 \* the radio loop and the receiving application thread keep running; once the loss budget is
